@@ -9,3 +9,8 @@ import ZbossModel.Props.C20
 #print axioms Zboss.Host.C20_close_idempotent
 #print axioms Zboss.Host.C20_lost_once
 #print axioms Zboss.Host.C20_no_spurious_report
+#print axioms Zboss.Host.C20_close_shuts
+#print axioms Zboss.Host.C20_shut_forever
+#print axioms Zboss.Host.C20_none_awaits_response
+#print axioms Zboss.Host.C20_next_step_ends
+#print axioms Zboss.Host.C20_close_reaches_every_request
